@@ -234,6 +234,9 @@ def run_history(hist, raising):
     del state['log'][:]
     del calls[:]
     res = exc = None
+    saved_default_timeout = L['pe'].DEFAULT_PHASE_TIMEOUT_S
+    if plan[1] == 'sigint':
+      L['pe'].DEFAULT_PHASE_TIMEOUT_S = 5.0      # (bounds what a late-served signal costs: DESIGN.md 7.3)
     prof = None
     if plan[1] == 'profskip':
       import os, tempfile  # pylint: disable=g-import-not-at-top,multiple-imports
@@ -246,6 +249,7 @@ def run_history(hist, raising):
     except BaseException as e:  # pylint: disable=broad-except
       exc = e
     finally:
+      L['pe'].DEFAULT_PHASE_TIMEOUT_S = saved_default_timeout
       if prof and os.path.exists(prof):
         os.remove(prof)
     h.Test.HANDLED_SIGINT_ONCE = False
